@@ -5,7 +5,8 @@ package dastard
 // C11 — control requests are serialised with data, answered exactly once, and never wedge or crash.
 // Engine B. Part 1 enumerates request types x argument classes x I/O faults with one requester thread
 // (exact deadlock verdicts instead of time-outs), alone, twice in a row (requests that have to be refused),
-// and followed by Stop + Start + triggering blocks (v11RunHistory); part 2 explores the timing: requester(s), the real
+// followed by Stop + Start + triggering blocks, inside a triggering run (records analysed before and after the request)
+// and sent while a block is being processed (v11RunHistory); part 2 explores the timing: requester(s), the real
 // CoreLoop, a producer that continues / errors / closes, and an optional Stop caller.
 
 import (
@@ -15,7 +16,6 @@ import (
 	"path/filepath"
 	"runtime"
 	"strings"
-	"sync/atomic"
 	"testing"
 	"time"
 
@@ -31,9 +31,9 @@ type v11Source struct {
 	after     string        // what the producer does after `nblocks` blocks: idle | errblock | close
 	nblocks   int           // blocks sent spontaneously at the start
 	want      chan struct{} // one more block on demand
-	processed int32
-	inProcess int32
-	inMutator int32
+	processed uint32        // the three counters are only touched through accesses the race detector does not see (vAdd32 / runtime.VerifLoad32):
+	inProcess uint32        // sync/atomic operations would order a client thread's write before the next block for the detector (C17 uses this source)
+	inMutator uint32
 	overlap   string
 	frame     int
 	doneCh    chan struct{}     // one token per processed block
@@ -41,6 +41,11 @@ type v11Source struct {
 	keepPub   bool              // keep the processors' publish channels (C17 drains them like the ZMQ goroutines do)
 	zeroBased bool              // channel numbers start at 0 (generic source default) instead of 1
 	updates   chan ClientUpdate // the receiving end of the SourceControl's client-update queue (v11NewControl)
+	// procPoints (C11): block processing is an interval for the scheduler, with a scheduling point after it has begun and
+	// one before it ends, so that other threads can be scheduled into it (without them the un-instrumented
+	// AnySource.ProcessSegments is one atomic step of the core loop and nothing could ever run "during" a block).
+	procPoints bool
+	began      chan struct{} // one token per block whose processing has begun (procPoints)
 }
 
 func v11New(after string, nblocks int) *v11Source {
@@ -51,6 +56,7 @@ func v11New(after string, nblocks int) *v11Source {
 	s.samplePeriod = vPeriod
 	s.want = make(chan struct{}, 16)
 	s.doneCh = make(chan struct{}, 64)
+	s.began = make(chan struct{}, 64)
 	return s
 }
 
@@ -82,22 +88,42 @@ func (s *v11Source) PrepareRun(npre, nsamp int) error {
 	return err
 }
 
+// vAdd32 adds to a counter without the race detector seeing a synchronisation (runtime patch, Appendix A).
+func vAdd32(p *uint32, d int32) {
+	for {
+		o := runtime.VerifLoad32(p)
+		if runtime.VerifCas32(p, o, uint32(int32(o)+d)) {
+			return
+		}
+	}
+}
+
 func (s *v11Source) mut(name string) func() {
-	if atomic.LoadInt32(&s.inProcess) != 0 && s.overlap == "" {
+	if runtime.VerifLoad32(&s.inProcess) != 0 && s.overlap == "" {
 		s.overlap = name + " ran while a data block was being processed"
 	}
-	atomic.AddInt32(&s.inMutator, 1)
-	return func() { atomic.AddInt32(&s.inMutator, -1) }
+	vAdd32(&s.inMutator, 1)
+	return func() { vAdd32(&s.inMutator, -1) }
 }
 
 func (s *v11Source) ProcessSegments(b *dataBlock) error {
-	if atomic.LoadInt32(&s.inMutator) != 0 && s.overlap == "" {
+	if runtime.VerifLoad32(&s.inMutator) != 0 && s.overlap == "" {
 		s.overlap = "a data block was processed while a control request was being applied"
 	}
-	atomic.AddInt32(&s.inProcess, 1)
+	vAdd32(&s.inProcess, 1)
+	if s.procPoints {
+		select {
+		case s.began <- struct{}{}:
+		default:
+		}
+		vhook.P(916)
+	}
 	err := s.AnySource.ProcessSegments(b)
-	atomic.AddInt32(&s.inProcess, -1)
-	atomic.AddInt32(&s.processed, 1)
+	if s.procPoints {
+		vhook.P(917)
+	}
+	vAdd32(&s.inProcess, -1)
+	vAdd32(&s.processed, 1)
 	select {
 	case s.doneCh <- struct{}{}:
 	default:
@@ -231,6 +257,8 @@ func init() {
 	vhook.Doc(913, "producer: select{abort|block requested}")
 	vhook.Doc(914, "producer: poll abort")
 	vhook.Doc(915, "producer: send block")
+	vhook.Doc(916, "core loop: block processing has begun")
+	vhook.Doc(917, "core loop: block processing ends")
 }
 
 // ---------------------------------------------------------------------------------------------
@@ -246,6 +274,7 @@ type v11Req struct {
 	// map, a different (valid) case: the repeat family requires a reply and no crash, not a second error.
 	cured  bool
 	either bool // the statement does not fix whether this is an error
+	nbases int  // a projector request with well-formed matrices for channel 0: the number of bases of the model it installs (0: another request)
 	setup  func(e *v11Env)
 	call   func(e *v11Env) error
 }
@@ -328,6 +357,17 @@ func v11Requests() []v11Req {
 	addSize("ConfigurePulseLengths/npre<3", true, 10, 2, nil)
 	addSize("ConfigurePulseLengths/npre=1", true, 10, 1, nil)
 	addSize("ConfigurePulseLengths/while-writing", true, 20, 5, func(e *v11Env) { e.writingOn() })
+	// lengths that the edge-multi trigger in force on one channel (zero-threshold refinement on: at least 4 pretrigger
+	// samples) cannot work with; the other channel keeps the trigger it has
+	emtOn := func(ch int) func(e *v11Env) {
+		return func(e *v11Env) {
+			if err := trig([]int{ch}, TriggerState{EdgeMulti: true, EMTBackwardCompatibleRPCFields: EMTBackwardCompatibleRPCFields{EdgeMultiLevel: 100, EdgeMultiVerifyNMonotone: 1}})(e); err != nil {
+				panic("harness: could not switch the edge-multi trigger on: " + err.Error())
+			}
+		}
+	}
+	addSize("ConfigurePulseLengths/refused-by-edge-multi-trigger-of-channel-0", true, 12, 3, emtOn(0))
+	addSize("ConfigurePulseLengths/refused-by-edge-multi-trigger-of-channel-1", true, 12, 3, emtOn(1))
 
 	proj := func(ch int, p, b string) func(e *v11Env) error {
 		return func(e *v11Env) error {
@@ -336,9 +376,34 @@ func v11Requests() []v11Req {
 		}
 	}
 	goodP, goodB := v11B64(v11Matrix(2, 12)), v11B64(v11Matrix(12, 2))
-	add("ConfigureProjectorsBasis/valid", false, proj(0, goodP, goodB))
-	add("ConfigureProjectorsBasis/wrong-shape", true, proj(0, v11B64(v11Matrix(2, 11)), goodB))
-	add("ConfigureProjectorsBasis/basis-wrong-shape", true, proj(0, goodP, v11B64(v11Matrix(12, 3))))
+	// Shapes. The documented rule: projectors are (nbases x nsamp), the basis is (nsamp x nbases), nsamp = 12 here. Every
+	// combination of a projector matrix that is well-formed / has another number of rows / has the wrong number of columns
+	// with a basis that is well-formed / has the wrong number of rows / has another number of columns (whether a pair is
+	// valid follows from the rule: 3x12 with 12x3 is a valid three-basis model), sent for a channel that has no model and
+	// for a channel that already has a (one-basis) model of another shape.
+	priorModel := func(e *v11Env) {
+		if err := proj(0, v11B64(v11Matrix(1, 12)), v11B64(v11Matrix(12, 1)))(e); err != nil {
+			panic("harness: could not install the one-basis model: " + err.Error())
+		}
+	}
+	for _, prior := range []bool{false, true} {
+		for _, ps := range [][2]int{{2, 12}, {3, 12}, {2, 11}} {
+			for _, bs := range [][2]int{{12, 2}, {11, 2}, {12, 3}} {
+				valid := ps[1] == 12 && bs[0] == 12 && bs[1] == ps[0]
+				rq := v11Req{name: fmt.Sprintf("ConfigureProjectorsBasis/P%dx%d+B%dx%d", ps[0], ps[1], bs[0], bs[1]), wantErr: !valid,
+					call: proj(0, v11B64(v11Matrix(ps[0], ps[1])), v11B64(v11Matrix(bs[0], bs[1])))}
+				if valid {
+					rq.nbases = ps[0]
+				}
+				if prior {
+					rq.name += "/channel-has-model"
+					rq.setup = priorModel
+				}
+				rs = append(rs, rq)
+			}
+		}
+	}
+	add("ConfigureProjectorsBasis/other-channel", false, proj(1, goodP, goodB))
 	add("ConfigureProjectorsBasis/bad-base64", true, proj(0, "###", goodB))
 	add("ConfigureProjectorsBasis/truncated", true, proj(0, goodP[:len(goodP)/2/4*4], goodB))
 	add("ConfigureProjectorsBasis/empty", true, proj(0, "", ""))
@@ -580,7 +645,7 @@ func (w *v11Watch) changed() string {
 	return ""
 }
 
-var v11Seq int
+var v11Seq, v11TrigSeq int
 
 func v11Dir() string {
 	// one directory per worker process, emptied between executions (cheaper than a fresh one each time)
@@ -660,6 +725,7 @@ func v11Finish(x *vexp.X, s *vhook.Sched, name string, src *v11Source, r *v11Res
 func v11RunArgs(x *vexp.X, rq v11Req, running bool) vexp.Result {
 	src := v11New("idle", 0)
 	src.zeroBased = rq.zeroBased
+	src.procPoints = true
 	sc := v11NewControl(src)
 	env := &v11Env{sc: sc, src: src, dir: v11Dir(), npre: 4, nsam: 12}
 	res := &v11Result{}
@@ -730,6 +796,13 @@ func v11RunArgs(x *vexp.X, rq v11Req, running bool) vexp.Result {
 //
 //	repeat:  an invalid request (argument class or I/O fault) is sent twice in a row. Its arguments are as invalid the
 //	         second time as the first: both replies must be errors, and neither changes the server status.
+//	triggered: an edge trigger on both channels, a block with a pulse, the request (any class), two more such blocks. The
+//	         records of these blocks are analysed with whatever model the channel has: a request that leaves a channel in
+//	         an inconsistent state crashes the server here. A request answered with an error must leave the status, the
+//	         set of channels with a model and the records (lengths, number of model coefficients, still coming) as they
+//	         were; an accepted model is in effect in the later blocks.
+//	during:  the request (any class) is sent when the core loop is inside ProcessSegments; the exclusion monitor of the
+//	         scripted source reports a handler that does not wait for the end of the block.
 //	restart: a request (any class of the alphabet), then Stop, Start (SourceControl.Start hands the record lengths of
 //	         the server status to the new run), an edge trigger on both channels and two blocks with pulses. The new run
 //	         must work with the record lengths of the last record-length request that was answered with success (the
@@ -737,6 +810,7 @@ func v11RunArgs(x *vexp.X, rq v11Req, running bool) vexp.Result {
 func v11RunHistory(x *vexp.X, rq v11Req, mode string) vexp.Result {
 	src := v11New("idle", 0)
 	src.zeroBased = rq.zeroBased
+	src.procPoints = true
 	sc := v11NewControl(src)
 	env := &v11Env{sc: sc, src: src, dir: v11Dir(), npre: 4, nsam: 12}
 	res := &v11Result{}
@@ -746,13 +820,22 @@ func v11RunHistory(x *vexp.X, rq v11Req, mode string) vexp.Result {
 		}
 	}
 	origRec, origSum := PubRecordsChan, PubSummariesChan
-	if mode == "restart" {
+	if mode == "restart" || mode == "triggered" {
 		// triggered records of this execution go to private queues, read by the requester after every block
 		src.pulses, src.keepPub = true, true
 		PubRecordsChan = make(chan []*DataRecord, 64)
 		PubSummariesChan = make(chan []*DataRecord, 64)
 	}
 	recQ, sumQ := PubRecordsChan, PubSummariesChan
+	if mode == "triggered" {
+		// blocks with pulses while writing is on create files (external-trigger side file, records) from the core loop: a
+		// directory of its own, so that the free-running tail of an abandoned (pruned) execution on a loaded machine cannot
+		// find its directory emptied by the next execution (the worker's TMPDIR is removed by bin/check)
+		v11TrigSeq++
+		env.dir = filepath.Join(os.Getenv("TMPDIR"), fmt.Sprintf("c11-triggered-%d", v11TrigSeq))
+		os.MkdirAll(env.dir, 0755)
+		os.WriteFile(filepath.Join(env.dir, "regular-file"), []byte("x"), 0644)
+	}
 	var outcome string
 	stop := func(what string) bool {
 		var ok bool
@@ -763,16 +846,115 @@ func v11RunHistory(x *vexp.X, rq v11Req, mode string) vexp.Result {
 		}
 		return true
 	}
+	// blocks: n more blocks (with a pulse on channel 0 each) are processed; returns the triggered records published meanwhile
+	blocks := func(n int) (recs []*DataRecord) {
+		for i := 0; i < n; i++ {
+			src.demandBlock()
+			<-src.doneCh
+			for more := true; more; {
+				select {
+				case rr := <-recQ:
+					recs = append(recs, rr...)
+				case <-sumQ:
+				default:
+					more = false
+				}
+			}
+		}
+		return recs
+	}
+	edgeOn := FullTriggerState{ChannelIndices: []int{0, 1}, TriggerState: TriggerState{EdgeTrigger: true, EdgeRising: true, EdgeLevel: 100}}
 	requester := func() {
 		if err := v11Start(sc, src); err != nil {
 			fail("harness-start", "Start failed: %v", err)
 			return
 		}
+		var ok bool
+		if mode == "triggered" {
+			// the request arrives in a run that is triggering (edge trigger on both channels, unless the request's own
+			// preparation replaces it on a channel): records of the channel are cut and analysed (with the model the
+			// channel has) in the block before the request and in the two blocks after it
+			if err := sc.ConfigureTriggers(&edgeOn, &ok); err != nil {
+				fail("harness-start", "the edge trigger before %s was refused: %v", rq.name, err)
+				return
+			}
+		}
 		if rq.setup != nil {
 			rq.setup(env)
 		}
-		var ok bool
 		switch mode {
+		case "during":
+			// the request arrives while a data block is being processed: the client waits until the core loop is inside
+			// ProcessSegments (parked at the scheduling point after the begin of the interval) and sends then. A handler
+			// that touches the source before the block is finished trips the exclusion monitor (v11Finish).
+			src.demandBlock()
+			<-src.began
+			err := rq.call(env)
+			x.Logf("%s, sent while a block was being processed -> %v", rq.name, err)
+			switch {
+			case rq.either:
+			case rq.wantErr && err == nil:
+				fail("invalid-request-accepted", "%s returned nil; the arguments are invalid (or the I/O step failed), an error is required", rq.name)
+			case !rq.wantErr && err != nil:
+				fail("valid-request-rejected", "%s returned %v for valid arguments", rq.name, err)
+			}
+			<-src.doneCh // the block is finished, too
+			outcome = fmt.Sprintf("err=%v blocks=%d", err != nil, runtime.VerifLoad32(&src.processed))
+			stop("after the request sent during a block")
+		case "triggered":
+			shape := func(r *DataRecord) string {
+				return fmt.Sprintf("channel %d: %d samples, %d of them pretrigger, %d model coefficients", r.channelIndex, len(r.data), r.presamples, len(r.modelCoefs))
+			}
+			first := blocks(1)
+			for i := 0; i < 2 && len(first) == 0; i++ {
+				first = blocks(1) // an edge-multi trigger looks further ahead than an edge trigger: its record comes a block later
+			}
+			if len(first) == 0 {
+				fail("harness-vacuous", "no record was triggered in the three blocks before the request (a pulse each, trigger on)")
+				stop("vacuous run")
+				return
+			}
+			was := shape(first[len(first)-1])
+			withModel := fmt.Sprint(src.ChannelsWithProjectors())
+			w := v11NewWatch(sc, src)
+			err := rq.call(env)
+			x.Logf("%s -> %v; before it: %s; channels with a model: %s", rq.name, err, was, withModel)
+			switch {
+			case rq.either:
+			case rq.wantErr && err == nil:
+				fail("invalid-request-accepted", "%s returned nil; the arguments are invalid (or the I/O step failed), an error is required", rq.name)
+			case !rq.wantErr && err != nil:
+				fail("valid-request-rejected", "%s returned %v for valid arguments", rq.name, err)
+			}
+			if err != nil {
+				if d := w.changed(); d != "" {
+					fail("rejected-request-changed-server-status", "%s was answered with the error %q, but %s", rq.name, err, d)
+				}
+				if now := fmt.Sprint(src.ChannelsWithProjectors()); now != withModel {
+					fail("rejected-request-changed-channel-model", "%s was answered with the error %q, but the channels that have a model (what the next STATUS message reports) are now %s; before the request: %s", rq.name, err, now, withModel)
+				}
+			}
+			// the next blocks are processed and their records analysed: a crash here is the server terminating
+			later := blocks(2)
+			for _, r := range later {
+				if r.channelIndex != 0 {
+					continue
+				}
+				if err != nil && shape(r) != was {
+					fail("rejected-request-changed-records", "%s was answered with the error %q, but the records triggered afterwards differ from those before it: %s; before: %s", rq.name, err, shape(r), was)
+				}
+				if err == nil && rq.nbases > 0 && len(r.modelCoefs) != rq.nbases {
+					fail("accepted-model-not-in-effect", "%s was answered with success (a model of %d bases), but a record triggered in a later block has %s", rq.name, rq.nbases, shape(r))
+				}
+			}
+			if err != nil && len(later) == 0 {
+				fail("rejected-request-stopped-triggering", "%s was answered with the error %q; before it the block(s) with a pulse gave %d record(s), the two such blocks after it gave none", rq.name, err, len(first))
+			}
+			outcome = fmt.Sprintf("err=%v before[%s] after=%d", err != nil, was, len(later))
+			if len(later) > 0 {
+				outcome += "[" + shape(later[len(later)-1]) + "]"
+			}
+			stop("triggering run")
 		case "repeat":
 			w := v11NewWatch(sc, src)
 			err1 := rq.call(env)
@@ -820,27 +1002,15 @@ func v11RunHistory(x *vexp.X, rq v11Req, mode string) vexp.Result {
 				stop("second run")
 				return
 			}
-			if err := sc.ConfigureTriggers(&FullTriggerState{ChannelIndices: []int{0, 1}, TriggerState: TriggerState{EdgeTrigger: true, EdgeRising: true, EdgeLevel: 100}}, &ok); err != nil {
+			if err := sc.ConfigureTriggers(&edgeOn, &ok); err != nil {
 				fail("follow-up-request-failed", "after %s, Stop and Start a valid ConfigureTriggers returned %v", rq.name, err)
 			}
 			nrec := 0
-			for i := 0; i < 2; i++ {
-				src.demandBlock()
-				<-src.doneCh
-				for more := true; more; {
-					select {
-					case recs := <-recQ:
-						for _, r := range recs {
-							nrec++
-							if len(r.data) != wantSamp || r.presamples != wantPre {
-								fail("record-with-refused-lengths", "after %s (reply: %v), Stop and Start a triggered record has %d samples, %d of them pretrigger; the last accepted record lengths are npre=%d nsamp=%d",
-									rq.name, err, len(r.data), r.presamples, wantPre, wantSamp)
-							}
-						}
-					case <-sumQ:
-					default:
-						more = false
-					}
+			for _, r := range blocks(2) {
+				nrec++
+				if len(r.data) != wantSamp || r.presamples != wantPre {
+					fail("record-with-refused-lengths", "after %s (reply: %v), Stop and Start a triggered record has %d samples, %d of them pretrigger; the last accepted record lengths are npre=%d nsamp=%d",
+						rq.name, err, len(r.data), r.presamples, wantPre, wantSamp)
 				}
 			}
 			if nrec == 0 {
@@ -865,6 +1035,7 @@ type v11Timing struct {
 	reqs    []string // request shapes issued by the requester, in order
 	stopper bool
 	second  bool // a second requester thread (another client connection)
+	during  bool // the requester sends its first request when the processing of a block has begun (the core loop is inside ProcessSegments)
 }
 
 func v11Shape(e *v11Env, shape string) error {
@@ -886,12 +1057,26 @@ func v11Shape(e *v11Env, shape string) error {
 	case "raw":
 		var name string
 		return e.sc.StoreRawDataBlock(8, &name)
+	case "projectors": // a model for channel 0
+		return e.sc.ConfigureProjectorsBasis(&ProjectorsBasisObject{ChannelIndex: 0, ProjectorsBase64: v11B64(v11Matrix(2, 12)), BasisBase64: v11B64(v11Matrix(12, 2)), ModelDescription: "m"}, &ok)
+	case "coupling": // FB/error coupling (off: the only value a generic source accepts)
+		off := false
+		return e.sc.CoupleErrToFB(&off, &ok)
+	case "ungroup":
+		return e.sc.DeleteGroupTriggerCoupling(&GroupTriggerState{Connections: map[int][]int{0: {1}}}, &ok)
+	case "uncouple":
+		var a bool
+		return e.sc.StopTriggerCoupling(&a, &ok)
+	case "mix": // served on the client thread by design (a Lancero source queues it itself); a generic source refuses it
+		e.sc.ConfigureMixFraction(&MixFractionObject{ChannelIndices: []int{1}, MixFractions: []float64{0.5}}, &ok)
+		return nil
 	}
 	panic("unknown shape " + shape)
 }
 
 func v11RunTiming(x *vexp.X, tm v11Timing) vexp.Result {
 	src := v11New(tm.after, tm.nblocks)
+	src.procPoints = true
 	sc := v11NewControl(src)
 	env := &v11Env{sc: sc, src: src, dir: v11Dir(), npre: 4, nsam: 12}
 	res := &v11Result{}
@@ -909,6 +1094,9 @@ func v11RunTiming(x *vexp.X, tm v11Timing) vexp.Result {
 			return
 		}
 		close(started)
+		if tm.during {
+			<-src.began
+		}
 		for _, sh := range tm.reqs {
 			err := v11Shape(env, sh)
 			errs = append(errs, fmt.Sprintf("%s=%v", sh, err != nil))
@@ -1045,7 +1233,7 @@ func TestVerifC11(t *testing.T) {
 	if r.Thorough() {
 		pb = 2
 	}
-	r.SetBound(fmt.Sprintf("part 1: every request type x argument class x I/O fault (%d classes), with and without a running source, one requester thread, followed by two blocks, two further requests and Stop; every class that has to be refused also sent twice in a row; every class also followed by Stop, Start, an edge trigger and two blocks with pulses; part 2: all interleavings with at most %d preemptions (all select alternatives) of a requester issuing 1-2 requests of each closure shape, the real CoreLoop, a producer that idles / sends an error block / closes its channel after 0-1 blocks, and optionally a concurrent Stop caller or a second requester", len(v11Requests()), pb))
+	r.SetBound(fmt.Sprintf("part 1: every request type x argument class x I/O fault (%d classes), with and without a running source, one requester thread, followed by two blocks, two further requests and Stop; every class that has to be refused also sent twice in a row; every class also followed by Stop, Start, an edge trigger and two blocks with pulses; every class also sent in a triggering run (edge trigger on, a block with a pulse before and two after the request, records analysed with the channel's model) and sent while a block is being processed (block processing is an interval with scheduling points at both ends); projector requests: every pair of {well-formed, other row count, wrong column count} projectors and {well-formed, wrong row count, other column count} basis, on a channel without and with a model; part 2: all interleavings with at most %d preemptions (all select alternatives) of a requester issuing 1-2 requests of each closure shape, the real CoreLoop, a producer that idles / sends an error block / closes its channel after 0-1 blocks, and optionally a concurrent Stop caller or a second requester; every request type (12 shapes) sent when the processing of a block has begun", len(v11Requests()), pb))
 	for _, rq := range v11Requests() {
 		rq := rq
 		r.DFS("args/running/"+rq.name, 0, func(x *vexp.X) vexp.Result { return v11RunArgs(x, rq, true) })
@@ -1054,6 +1242,8 @@ func TestVerifC11(t *testing.T) {
 			r.DFS("args/repeat/"+rq.name, 0, func(x *vexp.X) vexp.Result { return v11RunHistory(x, rq, "repeat") })
 		}
 		r.DFS("args/restart/"+rq.name, 0, func(x *vexp.X) vexp.Result { return v11RunHistory(x, rq, "restart") })
+		r.DFS("args/triggered/"+rq.name, 0, func(x *vexp.X) vexp.Result { return v11RunHistory(x, rq, "triggered") })
+		r.DFS("args/during/"+rq.name, 0, func(x *vexp.X) vexp.Result { return v11RunHistory(x, rq, "during") })
 	}
 	var tms []v11Timing
 	shapes := []string{"trigger", "lengths", "group", "label", "write", "comment", "raw"}
@@ -1073,6 +1263,15 @@ func TestVerifC11(t *testing.T) {
 			if r.Thorough() {
 				tms = append(tms, v11Timing{name: fmt.Sprintf("timing/%s/blocks%d/trigger+second-client", after, nb), after: after, nblocks: nb, reqs: []string{"trigger"}, second: true})
 			}
+		}
+	}
+	// every request type of the RPC surface, sent when the processing of a block has begun (and, all interleavings within
+	// the bound, around it): a handler that does not wait for the core loop to be between two blocks runs inside the interval
+	for _, sh := range append(append([]string{}, shapes...), "projectors", "coupling", "ungroup", "uncouple", "mix") {
+		tms = append(tms, v11Timing{name: "timing/during-block/" + sh, after: "idle", nblocks: 1, reqs: []string{sh}, during: true})
+		if r.Thorough() {
+			tms = append(tms, v11Timing{name: "timing/during-block/errblock/" + sh, after: "errblock", nblocks: 1, reqs: []string{sh}, during: true})
+			tms = append(tms, v11Timing{name: "timing/during-block/" + sh + "+stopper", after: "idle", nblocks: 1, reqs: []string{sh}, during: true, stopper: true})
 		}
 	}
 	r.DFSSharded("hw/abaco/requests-then-stop", pb+1, 2, v11RunAbaco)
